@@ -35,6 +35,7 @@ def run(ctx):
     ctx.rule(loader)
     ctx.rule(nothing_pending)
     ctx.rule(no_process_state)
+    ctx.rule(loaded_stats_are_live)
 
 
 def _std(prog):
@@ -523,3 +524,11 @@ def nothing_pending(ctx, R="R-C17-save-complete"):
                   "before it is folded into the matrix lack those vectors, and the reloaded transform differs" % (attr, astq.text(node)[:70]), robust=True)
     if not pending:
         ctx.ok(R, acc.loc(), "accumulate keeps data from the features only in the statistics matrix, which is what save writes")
+
+
+def loaded_stats_are_live(ctx, R="R-C17-loader"):
+    """Statistics that were saved and loaded again must behave as the statistics they are: anything the object derives from them (a
+    cached "have statistics" flag, cached means and scales) has to be refreshed wherever the statistics are written - the loader
+    included.  The derived-state rule of Standardize (C16) is a premise of the round trip and is re-established here."""
+    from . import c16
+    c16.derived_state(ctx, R)
